@@ -118,10 +118,68 @@ def fe51_op(it, p):
                 claim="sum h_i 2^(51 i) == %s(f%s)  (mod 2^255 - 19)" % (op, ", g" if op in ("mul", "add", "sub") else ""))
 
 
+L25519 = (1 << 252) + 27742317777372353535851937790883648493
+
+
+def byte_vars(name, n):
+    return [limb.var("%s%d" % (name, i), 8, 0, 255) for i in range(n)]
+
+
+def byte_buf(it, name, vals):
+    b = it.new_buffer(len(vals), name, False, [0] * len(vals))
+    for i, v in enumerate(vals):
+        it.store_bytes(interp.Ptr(b.obj, b.off + i), v, 1, "setup")
+    return b
+
+
+def bytes_poly(vals):
+    out = {}
+    for i, v in enumerate(vals):
+        out = limb.padd(out, limb.pscale(limb.lift(v, 8).poly, 1 << (8 * i)))
+    return out
+
+
+def sc25519_op(it, p):
+    """scalar arithmetic modulo the group order L (21-bit signed limbs): result bytes == the operation mod L"""
+    op = p["op"]
+    if op == "reduce":
+        s = byte_vars("s", 64)
+        sb = byte_buf(it, "s", s)
+        expect = bytes_poly(s)
+        it.call(_name(it, "sc25519_reduce"), [sb])
+        ob = sb
+    else:
+        a, b = byte_vars("a", 32), byte_vars("b", 32)
+        ab, bb = byte_buf(it, "a", a), byte_buf(it, "b", b)
+        ob = it.new_buffer(32, "out", False, [0] * 32)
+        if op == "mul":
+            it.call(_name(it, "sc25519_mul"), [ob, ab, bb])
+            expect = limb.pmul(bytes_poly(a), bytes_poly(b))
+        else:
+            c = byte_vars("c", 32)
+            cb = byte_buf(it, "c", c)
+            it.call(_name(it, "sc25519_muladd"), [ob, ab, bb, cb])
+            expect = limb.padd(limb.pmul(bytes_poly(a), bytes_poly(b)), bytes_poly(c))
+    out = [limb.lift(it.load_bytes(interp.Ptr(ob.obj, ob.off + i), 1, "result"), 8) for i in range(32)]
+    for x in out:
+        if x.mod:
+            limb.C.wraps.append(("output byte may have wrapped", x.lo, x.hi))
+    diff = limb.padd(bytes_poly(out), expect, -1)
+    return dict(diff=diff, modulus=L25519, bounds_ok=all(0 <= x.lo and x.hi <= 255 for x in out),
+                assume_zero=lambda v: v.endswith("_shr256"),
+                assumption_text="the limb value before serialisation lies in [0, 2^256) (the 32 output bytes are its low 256 bits; its range "
+                                "follows from the reduction's arithmetic and is not decided here)",
+                bounds="32 output bytes", claim="sum out[i] 256^i == %s  (mod L = 2^252 + 27742317777372353535851937790883648493)"
+                % {"reduce": "the 64-byte little-endian input", "mul": "a * b", "muladd": "a * b + c"}[op])
+
+
 TARGETS = [
+    dict(name="sc25519", units=["crypto_core/ed25519/ref10/ed25519_ref10.c", "sodium/utils.c"], cflags=["-fno-inline-functions"], run=sc25519_op,
+         params=[{"op": "reduce"}, {"op": "mul"}, {"op": "muladd"}]),
     dict(name="x25519-ladder-rfc7748", ladder=True, params=[{}]),
     dict(name="x25519-invert", ladder=True, params=[{}]),
     dict(name="x25519-ladder-bounds", ladder=True, params=[{}]),
+    dict(name="sc25519-invert", ladder=True, params=[{}]),
     dict(name="fe25519-51-x25519", units=["crypto_scalarmult/curve25519/ref10/x25519_ref10.c", "sodium/utils.c"], cflags=["-fno-inline-functions"], run=fe51_op,
          params=[{"op": "mul"}, {"op": "sq"}, {"op": "mul32", "n": 121666, "out": (1 << 52) - 1},
                  {"op": "add", "in": (1 << 62) - 1, "out": (1 << 63) - 2}, {"op": "sub", "in": (1 << 53) - 1, "out": FE_IN}]),
@@ -194,7 +252,7 @@ def run_one(tname, pidx, workroot):
         r = ladder.run(tname, workroot)
         r["params"] = p
         r["claim"] = ("X25519 ladder of the unit == RFC 7748 section 5 for all scalars and u (inductive over the loop, ring operations)"
-                      if tname == "x25519-ladder-rfc7748" else "fe25519_invert(z) == z^(p-2)" if tname == "x25519-invert" else
+                      if tname == "x25519-ladder-rfc7748" else "fe25519_invert(z) == z^(p-2)" if tname == "x25519-invert" else "sc25519_invert(s) == s^(L-2) mod L" if tname == "sc25519-invert" else
                       "limb bounds are inductive along the ladder: no machine wrap-around inside an iteration, limbs <= 2^51 + 2^13 at every boundary")
         return r
     try:
@@ -211,6 +269,16 @@ def run_one(tname, pidx, workroot):
         it = interp.Interp(mod, None)
         out = t["run"](it, p)
         bad = limb.coeffs_mod(out["diff"], out["modulus"])
+        assumed = []
+        if out.get("assume_zero"):
+            # quotient variables the target declares to be zero under a stated range assumption (e.g. the quotient of the
+            # final truncation to 256 bits): dropped from the residue, reported as an assumption of the claim
+            for m in list(bad):
+                if len(m) == 1 and out["assume_zero"](m[0]):
+                    assumed.append(m[0])
+                    del bad[m]
+            if assumed:
+                res["assumption"] = out["assumption_text"]
         res.update(ir_steps=it.steps, monomials=len(out["diff"]), fresh_quotients=limb.C.nfresh, claim=out["claim"], bounds=out["bounds"],
                    unintended_wraps=len(limb.C.wraps))
         if limb.C.wraps:
@@ -229,7 +297,8 @@ def run_one(tname, pidx, workroot):
             res["status"] = "violation"
             res["detail"] = "limb bounds not preserved: " + out["bounds"]
         else:
-            chk = z3_identity(out["diff"], out["modulus"])
+            dz = {m: c for m, c in out["diff"].items() if not (len(m) == 1 and m[0] in assumed)}
+            chk = z3_identity(dz, out["modulus"])
             res["z3_identity"] = chk
             res["status"] = "ok" if chk == "unsat" else "inconclusive"
             if chk != "unsat":
